@@ -67,6 +67,7 @@ structure ListType where
   registered : Bool        -- the function factory creates a store for it
   shape : Shape            -- what the engine sees of the item type; `selMap` here is the NAME map (selector field →
                            -- item field of the same name); the model's `selMap` is `selMapFor facts …` (`shapeFor`)
+  keyTypes : List String   -- Go type of each identifier field (what `hashKey` renders: a uint, a string, an address)
   hasSel : Bool            -- model.FilterType has a selectors field for the function
   selTypes : List SelType  -- per field of the selectors struct
   hasEl : Bool             -- model.FilterType has an elements field for the function
